@@ -9,6 +9,7 @@ import (
 	"path/filepath"
 	"sort"
 	"strings"
+	"sync"
 	"testing"
 	"time"
 
@@ -320,6 +321,58 @@ func runCase(cs Case, suite map[string]*compliance.TestSpec) (CaseResult, []stri
 	var err error
 	var prevMax uint64
 	applyConfig(cfg)
+	if cs.Kind == "parallel" {
+		// every test on its own fresh pair of servers, all at the same time. Safe because the only package-level
+		// state the tests share is compliance's election-id counter (atomic; on a fresh server any non-zero id
+		// will do) and the instance names (set once above, read only); the same batch is also run against the
+		// reference server, where every test must pass.
+		type slot struct {
+			r      TestResult
+			leaked bool
+			err    error
+			ok     bool
+		}
+		slots := make([]slot, len(cs.Order))
+		var wg sync.WaitGroup
+		for i, name := range cs.Order {
+			ts, ok := suite[name]
+			if !ok {
+				continue
+			}
+			slots[i].ok = true
+			wg.Add(1)
+			go func(i int, name string, ts *compliance.TestSpec) {
+				defer wg.Done()
+				pe, err := newEnv(kind, cfg)
+				if err != nil {
+					slots[i].err = err
+					return
+				}
+				slots[i].r, slots[i].leaked = runTest(name, ts, pe, wd)
+				if !slots[i].r.Timeout {
+					pe.stop()
+				}
+			}(i, name, ts)
+		}
+		wg.Wait()
+		for i, sl := range slots {
+			switch {
+			case !sl.ok:
+			case sl.err != nil:
+				problems = append(problems, fmt.Sprintf("cannot start servers: %v", sl.err))
+			default:
+				if sl.leaked {
+					problems = append(problems, fmt.Sprintf("HANG: test %q did not end after its servers were stopped", cs.Order[i]))
+				}
+				if sl.r.Timeout && kind == "reference" && referenceKind() == "reference" {
+					problems = append(problems, fmt.Sprintf("HANG: test %q still running after %v on the reference server", cs.Order[i], wd))
+				}
+				out.Results = append(out.Results, sl.r)
+			}
+		}
+		out.Millis = time.Since(t0).Milliseconds()
+		return out, problems
+	}
 	for _, name := range cs.Order {
 		ts, ok := suite[name]
 		if !ok {
@@ -372,6 +425,9 @@ func oracle(cr CaseResult) []string {
 	for _, n := range extraDesignated[cr.Case.Server] {
 		isDesignated[n] = true
 	}
+	for _, n := range fibACKTests(cr.Case.Server) {
+		isDesignated[n] = true
+	}
 	for i, r := range cr.Results {
 		first := ""
 		if len(r.Messages) > 0 {
@@ -390,6 +446,29 @@ func oracle(cr CaseResult) []string {
 		}
 	}
 	return v
+}
+
+// fibACK lists, in suite order, the tests of compliance.TestSuite that declare RequiresFIBACK; it is filled from the
+// suite when the run starts (nothing is hard-coded: a test that is added later, or one that silently stops
+// asking for the FIB acknowledgement, is covered).
+var fibACK []string
+
+// fibACKTests returns the FIB-ACK tests that must fail against server kind k: all of them when no FIB_PROGRAMMED
+// is ever sent, those that delete entries when only DELETEs lose it.
+func fibACKTests(k string) []string {
+	switch k {
+	case "omit_fib":
+		return fibACK
+	case "omit_fib_for_deletes_only":
+		var out []string
+		for _, n := range fibACK {
+			if strings.Contains(n, "Delete") {
+				out = append(out, n)
+			}
+		}
+		return out
+	}
+	return nil
 }
 
 func generate(seed int64, n int, tier string, names []string) []Case {
@@ -440,19 +519,33 @@ func generate(seed int64, n int, tier string, names []string) []Case {
 	// (election base 1000: at base 1 "Flush from non-elected master returns error" sends the invalid id 0 when it
 	// is the first test on a server, and fails for that reason on any server)
 	cases = append(cases, Case{Kind: "cells", Server: "reference", Config: configs[1], Order: transcribedNames(), Seed: seed})
+	// every FIB-ACK test at once against fresh reference servers: they must pass (this also shows that running
+	// them concurrently does not disturb them)
+	cases = append(cases, Case{Kind: "parallel", Server: "reference", Config: configs[1], Order: append([]string{}, fibACK...), Seed: seed})
 	for _, k := range faultKinds[1:] {
 		order := append([]string{}, designated[k]...)
+		if fib := fibACKTests(k); fib != nil {
+			// these tests wait for the acknowledgement until the watchdog stops them: all at the same time, each
+			// on its own fresh faulty server; the sequential cells below keep the controls only
+			cases = append(cases, Case{Kind: "parallel", Server: k, Config: configs[1], Order: append([]string{}, fib...), Seed: seed})
+			order = nil
+		}
 		ctl := controls[k]
 		if ctl == nil {
 			ctl = []string{"Add IPv4 entry that can be programmed on the server - with RIB ACK", "Modify RPC Connection with Election ID"}
 		}
 		if tier == "thorough" {
-			order = append(order, extraDesignated[k]...)
+			if fibACKTests(k) == nil {
+				order = append(order, extraDesignated[k]...)
+			}
 			ctl = append(append([]string{}, ctl...), transcribedNames()...)
 		}
 		for _, c := range ctl {
 			dup := false
 			for _, o := range order {
+				dup = dup || o == c
+			}
+			for _, o := range fibACKTests(k) { // already in the concurrent batch
 				dup = dup || o == c
 			}
 			if !dup {
@@ -474,6 +567,12 @@ func run(args []string) error {
 		return err
 	}
 	suite, names := suiteByName()
+	fibACK = nil
+	for _, n := range names {
+		if suite[n].In.RequiresFIBACK {
+			fibACK = append(fibACK, n)
+		}
+	}
 	var cases []Case
 	if *fl.Replay != "" {
 		if err := drv.ReadJSON(*fl.Replay, &cases); err != nil {
@@ -504,6 +603,14 @@ func run(args []string) error {
 			distinct[fmt.Sprintf("%s|%s|%v|%s", cs.Kind, cs.Server, cs.Config, strings.Join(cs.Order, "\x00"))] = true
 		}
 		rep.Stats["runs_"+cs.Kind+"_"+cs.Server]++
+		if cs.Kind == "suite" {
+			// every client of a suite run is built with Connection().WithStub over the ONE gRPC channel per server
+			// that lives as long as the run (env.go newNode): a session that a test leaves open stays registered
+			rep.Stats["suite_runs_with_all_clients_on_one_long_lived_stub_channel"]++
+		}
+		if cs.Kind == "parallel" {
+			rep.Stats["tests_run_concurrently_on_own_fresh_servers"] += len(cr.Results)
+		}
 		rep.Stats["config_base_"+fmt.Sprint(cs.Config.Base)]++
 		fnum := faultNumber(cs.Server)
 		var cells []string
